@@ -81,6 +81,35 @@ def gen_name(rng, cls=None, ext=True):
     return n
 
 
+UNSTORABLE = ["\x07", "\x1b", "\x01", "\x1f", "\ufffe", "\uffff", "\x0b"]
+
+
+def add_unstorable_name(rng, root, tree, where=None):
+    """a file whose name is legal for the file system but cannot be stored in XML 1.0 (control character, U+FFFE/U+FFFF,
+    or bytes that are not UTF-8).  Returns the relative path (str as os.listdir reports it) or None."""
+    dirs = [""] + [k for k, v in tree.items() if v is None]
+    par = rng.choice(dirs) if where is None else where
+    stem = "".join(rng.choice(_PLAIN[:62]) for _ in range(rng.randint(1, 5)))
+    if rng.random() < 0.2:
+        name = os.fsdecode(stem.encode() + rng.choice([b"\xff", b"\xe9t\xe9", b"\xc3("]) + b".bin")
+    else:
+        name = stem + rng.choice(UNSTORABLE) + rng.choice(["", "x", ".mov"])
+    rel = (par + "/" if par else "") + name
+    p = os.path.join(root, rel)
+    if os.path.lexists(p) or not os.path.isdir(os.path.dirname(p)):
+        return None
+    data = rng.randbytes(rng.randint(0, 9))
+    with open(p, "wb") as f:
+        f.write(data)
+    tree[rel] = data
+    return rel
+
+
+def is_unstorable_error(r):
+    """the tool's (uncaught) refusal to put such a name into XML"""
+    return bool(r.internal and r.exc is not None and isinstance(r.exc, (ValueError, UnicodeError)) and ("XML compatible" in str(r.exc) or "surrogates not allowed" in str(r.exc)))
+
+
 def root_name(rng, prefix="R"):
     """name for a history root folder: it ends up in manifest file names, so every name class matters"""
     cls = rng.choice(["plain", "plain", "space", "xml", "punct", "uni", "zsep", "dot", "dotend", "dotunder", "bracket", "long"])
